@@ -56,6 +56,15 @@ def oracle(ck):
             ck.violation("q=%d: residual %r exceeds the output's own spectrum %r at f=%r (navg=%d)" % (q, float(rn[j]), float(out_asd[j]), float(f2[j]), int(ref.navg[j])), inp, tag="bounds")
         if ra is not None and np.any(np.abs(ra[ok] - rn[ok]) > 1e-6 * out_asd[ok]):
             ck.violation("q=%d: analytic and numeric solvers disagree (max rel %g)" % (q, float(np.max(np.abs(ra[ok] - rn[ok]) / out_asd[ok]))), inp, tag="analytic-vs-numeric")
+        # physical units: an output record c times smaller gives a residual c times smaller (nanometre-scale data in metres), both solvers
+        cu = ck.rng.choice([1e-9, 1e-12, 1e6])
+        with np.errstate(all="ignore"):
+            _, rn_s = SY.MISO_numeric_optimal_spectral_analysis(X, cu * y, fs, **kw); runs += 1
+            ra_s = SY.MISO_analytic_optimal_spectral_analysis(X, cu * y, fs, **kw)[1] if q <= 3 else None
+        if np.any(np.abs(rn_s[ok] - cu * rn[ok]) > 1e-6 * cu * out_asd[ok]):
+            ck.violation("q=%d: numeric residual of %g*y is not %g times the residual of y (max rel %g)" % (q, cu, cu, float(np.max(np.abs(rn_s[ok] - cu * rn[ok]) / (cu * out_asd[ok])))), dict(inp, scale=cu), tag="units-out")
+        if ra_s is not None and np.any(np.abs(ra_s[ok] - cu * rn[ok]) > 1e-5 * cu * out_asd[ok]):
+            ck.violation("q=%d: analytic residual of %g*y is not %g times the residual of y (max rel %g)" % (q, cu, cu, float(np.max(np.abs(ra_s[ok] - cu * rn[ok]) / (cu * out_asd[ok])))), dict(inp, scale=cu), tag="units-out")
         # permutation of the inputs
         if q >= 2:
             perm = list(range(q)); ck.rng.shuffle(perm)
